@@ -88,7 +88,9 @@ Theorem C04_cut_is_slicing_ip : forall bs,
 Proof. exact cut_only_when_stopped_ip. Qed.
 Print Assumptions C04_cut_is_slicing_ip.
 
-(* ---- per-layer agreement (the part of C04_headers_eq_slices that is proved) ------ *)
+(* ---- per-layer agreement: the layers of C04_headers_eq_slices (which is proved below in
+   full; the suffix `_partial` of these names is historical, each statement is complete for
+   its layer) ------ *)
 (* transport: read_transport of the struct family against the cursor's transport
    dispatch, for ANY IP payload descriptor: same header window, same payload window
    (UDP length field honoured by both), same error after both families' fix-ups *)
@@ -254,14 +256,20 @@ Print Assumptions C04_from_ip_records_refuted.
 (* Model of LaxPacketHeaders: Parse/HdrLaxModel.v (from_ethernet, from_ether_type, from_ip,
    from_linux_sll, add_ip, the stop_err field; IpHeaders / Ipv6Extensions / Ipv4Extensions
    ::from_slice_lax), compared exactly with the implementation on every generated case.
-   FULL STATEMENT (not proved): for the three entry points, the view of the
-   LaxPacketHeaders result = the converted LaxSlicedPacket result (headers, payload
-   window + incomplete flag, stop error and its layer) unless the documented exception.
-   Proved: the transport layer, the IPv4 layer and whole packets at the bare-IP entry point
-   when the first header announces IPv4 (below); the IPv6 extension chain, the
-   link-extension loop and the other entry points of the lax pair are covered by the
-   implementation-side comparison only (known record-level differences (C), (D) of
-   notes/C04.md live there). *)
+   FULL STATEMENT, PROVED further down (block "extend-c04lax": C04_lax_headers_eq_slices +
+   C04_lax_headers_eq_slices_strict + C04_lax_cut_is_slicing_* +
+   C04_lax_headers_eq_slices_or_exception + C04_lax_headers_never_bug): for the three entry
+   points and every byte string, the view of the LaxPacketHeaders result = the converted
+   LaxSlicedPacket result (headers, payload window + incomplete flag, stop error and its layer)
+   up to the record-level differences (C), (D) and the F11-like class, unless the documented
+   exception.  The three theorems directly below are LAYERS of that theorem (transport layer,
+   IPv4 layer, whole packets at the bare-IP entry point with a first nibble 4); their names
+   still end in `_partial` because they were proved first, as are the `_partial` names of the
+   strict pair above (C04_transport_agrees_partial, C04_ipv4_agrees_partial,
+   C04_ipv6_chain_agrees_cut_partial, C04_ipv6_agrees_cut_partial): each is complete for its
+   layer, and the whole-packet theorems C04_headers_eq_slices / C04_lax_headers_eq_slices
+   compose them.  Not covered by a theorem: LaxPacketHeaders::from_linux_sll (implementation-
+   side comparison only). *)
 
 (* the "decode transport layer" block of LaxPacketHeaders::add_ip against
    LaxSlicedPacketCursor::slice_transport, for ANY lax IP payload descriptor: same header
@@ -558,3 +566,236 @@ Example C04_ex_lax_f11 :
   LaxSlicedPacket.from_ip [79; 0; 0] = Err (ELen (mkLenError 60 3 LsSlice LyIpv4Header 0)).
 Proof. repeat split; vm_compute; reflexivity. Qed.
 (* ---- end extend-c04lax ---- *)
+
+(* ---- audit1-c04 ---- *)
+(* Audit round 1 follow-up: the SLOTS of the struct Ipv6Extensions, one by one.
+
+   `hagree` observes the struct Ipv6Extensions as (first next-header, fragmentation flag, SUM of
+   the slot lengths): which header sits in which slot is not part of C04_headers_eq_slices.
+   C04_ipv6_slots_in_order closes that: for every byte string and each of the three entry points,
+   if PacketHeaders.from_* returns an IPv6 network layer (header slice hd, struct x), then the cut
+   slicing result is Ok with an IPv6 network layer v on the SAME header slice, and the list l of
+   extension headers that iterating `v.extensions()` yields (Parse/Access.v, Ipv6ExtIterA.items =
+   IntoIterator + Ipv6ExtensionSliceIter::next until None) satisfies
+
+     slots_hold x l   no two headers of l belong to the same slot, and slot k of x holds the slice s
+                      <-> (k, s) is in `keyed false l`, the chain labelled with the slot each header
+                      belongs to by the rule of Ipv6Extensions::from_slice (kind -> slot;
+                      destination options -> first slot before a routing header, final destination
+                      options slot behind one).  Slices are (offset, bytes): same window AND same
+                      content.  Every filled slot is one yielded header, every yielded header sits in
+                      the slot of its kind, all other slots are None; the wire order is the order of l
+                      (it is NOT a fixed order of the slots: fragment / authentication / routing
+                      headers may come in any order, see C04_ex_slots)
+     chain .. l ..    l are consecutive pieces of the extension area of v from its start to its end,
+                      each piece a well-formed header of THE KIND ANNOUNCED IN FRONT OF IT (the IPv6
+                      header's next_header for the first one, octet 0 of the previous header
+                      afterwards), with the length its own bytes announce
+     win_of ..        the extension area is the window of exts6_len x bytes directly behind the 40 byte
+                      header (so the chain are consecutive windows from s_off hd + 40:
+                      C04_ipv6_slots_windows)
+
+   C04_ipv6_slots_determined: the struct is determined by the chain (a struct with the contents of
+   two slots swapped does not satisfy slots_hold for the same l).  The cut slicing result is the
+   slicing result unless it stopped in front of a refilled header (the C04_cut_is_slicing theorems); in that
+   case l are the headers in front of the cut.  C04_ipv6_struct_holds_chain (struct side alone) and
+   C04_ipv6_iter_yields_chain (iterator alone) are the two halves the proof composes.
+   Proofs: Parse/HdrSlots.v, Parse/HdrSlots2.v.  The same statement for the lax pair
+   (LaxPacketHeaders / LaxSlicedPacket): C04_lax_ipv6_slots_in_order, at the end of this file. *)
+From EP Require Import Parse.Access Parse.AccessProofs Parse.HdrSlots Parse.HdrSlots2.
+
+Theorem C04_ipv6_slots_in_order : forall bs et, bytes_ok bs ->
+  slots_in_order (PacketHeaders.from_ethernet_slice bs) (Cut.from_ethernet true bs) /\
+  slots_in_order (PacketHeaders.from_ether_type et bs) (Cut.from_ether_type true et bs) /\
+  slots_in_order (PacketHeaders.from_ip_slice bs) (Cut.from_ip true bs).
+Proof. exact hdr_slots_in_order. Qed.
+Print Assumptions C04_ipv6_slots_in_order.
+
+Check (eq_refl : slots_in_order =
+  fun h s =>
+    forall hp hd x, h = Ok hp -> h_net hp = Some (HnIp (IhV6 hd x)) ->
+    exists sp v first l nh_end,
+      s = Ok sp /\ sp_net sp = Some (NtIpv6 v) /\ v6_header v = hd /\
+      Ipv6HeaderSlice.next_header hd = Ok first /\
+      Ipv6ExtIterA.items (v6_exts v) = Ok l /\
+      slots_hold x l /\
+      chain (x6_slice (v6_exts v)) 0 first l (exts6_len x) nh_end /\
+      win_of (x6_slice (v6_exts v)) = (s_off hd + 40, exts6_len x)).
+Check (eq_refl : slots_hold =
+  fun x l => NoDup (map fst (keyed false l)) /\
+             forall k s, slot_get x k = Some s <-> In (k, s) (keyed false l)).
+Check (fun routed it r => eq_refl :
+  keyed routed (it :: r) = (item_slot routed it, ext_item_slice it) :: keyed (routed_after routed it) r).
+Check (eq_refl : item_slot =
+  fun routed it =>
+    match it with
+    | XHopByHop _ => SHbh | XRouting _ => SRoute | XFragment _ => SFrag
+    | XDestinationOptions _ => if routed then SFdest else SDest
+    | XAuthentication _ => SAuth
+    end).
+Check (eq_refl : routed_after = fun routed it => match it with XRouting _ => true | _ => routed end).
+Check (eq_refl : slot_get =
+  fun x k => match k with
+             | SHbh => x_hbh x | SDest => x_dest x | SRoute => x_route x
+             | SFdest => x_fdest x | SFrag => x_frag x | SAuth => x_auth x
+             end).
+Check (fun W k nh k' nh' => eq_refl : chain W k nh [] k' nh' = (k' = k /\ nh' = nh)).
+Check (fun W k nh it r k' nh' => eq_refl :
+  chain W k nh (it :: r) k' nh' =
+  (item_kind it = nh /\ item_wf it /\
+   subU W k (s_len (ext_item_slice it)) = Ok (ext_item_slice it) /\
+   exists nx, rdU (ext_item_slice it) 0 = Ok nx /\
+              chain W (k + s_len (ext_item_slice it)) nx r k' nh')).
+Check (eq_refl : item_kind =
+  fun it => match it with
+            | XHopByHop _ => 0 | XRouting _ => 43 | XFragment _ => 44
+            | XDestinationOptions _ => 60 | XAuthentication _ => 51
+            end).
+
+Theorem C04_ipv6_slots_determined : forall x x' l, slots_hold x l -> slots_hold x' l -> x = x'.
+Proof. exact slots_hold_unique. Qed.
+Print Assumptions C04_ipv6_slots_determined.
+
+Theorem C04_ipv6_slots_windows : forall W l first k' nh',
+  chain W 0 first l k' nh' -> wchain first (s_off W) l nh' (s_off W + k').
+Proof. exact chain_windows. Qed.
+Print Assumptions C04_ipv6_slots_windows.
+Check (fun nh pos it r nh_end pos_end => eq_refl :
+  wchain nh pos (it :: r) nh_end pos_end =
+  (item_kind it = nh /\ s_off (ext_item_slice it) = pos /\ item_wf it /\
+   exists nx, rdU (ext_item_slice it) 0 = Ok nx /\
+              wchain nx (pos + s_len (ext_item_slice it)) r nh_end pos_end)).
+
+Theorem C04_ipv6_struct_holds_chain : forall nh0 hp x nh' r,
+  Ipv6Extensions.from_slice nh0 hp = Ok (x, nh', r) ->
+  exists l k', slots_hold x l /\ chain hp 0 nh0 l k' nh' /\ k' <= s_len hp /\ r = at_off hp k'.
+Proof. exact from_slice_slots. Qed.
+Print Assumptions C04_ipv6_struct_holds_chain.
+
+Theorem C04_ipv6_iter_yields_chain : forall I l k nh nh' fuel,
+  chain I k nh l (s_len I) nh' -> k <= s_len I -> (length l < fuel)%nat ->
+  Ipv6ExtIterA.collect fuel (mkExtIter nh (at_off I k)) = Ok l.
+Proof. exact collect_chain. Qed.
+Print Assumptions C04_ipv6_iter_yields_chain.
+
+Definition ex_order : bytes :=
+  [96;0;0;0; 0;52; 44;64] ++ repeat 0 32 ++
+  [60;0;0;0;0;0;0;0] ++ [43;0;0;0;0;0;0;0] ++ [60;0;0;0;0;0;0;0] ++ [51;0;0;0;0;0;0;0] ++
+  [17;1;0;0;0;0;0;0;0;0;0;0] ++ [0;1;0;2;0;8;0;0].
+Definition slot_wins (x : exts6) : list (option window) :=
+  map (fun k => option_map win_of (slot_get x k)) [SHbh; SDest; SRoute; SFdest; SFrag; SAuth].
+Definition item_tag (it : ext_item) : N * window := (item_kind it, win_of (ext_item_slice it)).
+Example C04_ex_slots :
+  bytes_ok ex_order /\
+  exists hp hd x sp v l,
+    PacketHeaders.from_ip_slice ex_order = Ok hp /\ h_net hp = Some (HnIp (IhV6 hd x)) /\
+    Cut.from_ip true ex_order = Ok sp /\ sp_net sp = Some (NtIpv6 v) /\
+    Ipv6ExtIterA.items (v6_exts v) = Ok l /\
+    map item_tag l = [(44, (40, 8)); (60, (48, 8)); (43, (56, 8)); (60, (64, 8)); (51, (72, 12))] /\
+    slot_wins x = [None; Some (48, 8); Some (56, 8); Some (64, 8); Some (40, 8); Some (72, 12)] /\
+    stopped_at_ext (Ok sp) = false.
+Proof.
+  split; [apply bytes_okb_spec; vm_compute; reflexivity|].
+  do 6 eexists. split; [vm_compute; reflexivity|]. split; [reflexivity|].
+  split; [vm_compute; reflexivity|]. split; [reflexivity|]. split; [vm_compute; reflexivity|].
+  repeat split; vm_compute; reflexivity.
+Qed.
+Example C04_ex_slots_exception :
+  exists hp hd x sp v l,
+    PacketHeaders.from_ip_slice ex_dup = Ok hp /\ h_net hp = Some (HnIp (IhV6 hd x)) /\
+    Cut.from_ip true ex_dup = Ok sp /\ sp_net sp = Some (NtIpv6 v) /\
+    Ipv6ExtIterA.items (v6_exts v) = Ok l /\
+    map item_tag l = [(44, (40, 8))] /\
+    slot_wins x = [None; None; None; None; Some (40, 8); None] /\
+    stopped_at_ext (Ok sp) = true.
+Proof.
+  do 6 eexists. split; [vm_compute; reflexivity|]. split; [reflexivity|].
+  split; [vm_compute; reflexivity|]. split; [reflexivity|]. split; [vm_compute; reflexivity|].
+  repeat split; vm_compute; reflexivity.
+Qed.
+(* ---- end audit1-c04 ---- *)
+
+(* ---- audit1-c04 (lax pair) ---- *)
+(* The same statement for the lax pair: LaxPacketHeaders against the cut LaxSlicedPacket result.
+   A stop error ends the chain: the headers decoded in front of the fault stay in their slots and
+   are exactly what the lax slicing result iterates to.  Proofs: Parse/HdrLaxSlots.v, HdrLaxSlots2.v
+   (lockstep with the invariant lloop_inv of HdrLaxProofs3.v). *)
+From EP Require Import Parse.HdrLaxSlots Parse.HdrLaxSlots2.
+
+Theorem C04_lax_ipv6_slots_in_order : forall bs et, bytes_ok bs ->
+  lax_slots_in_order (LaxPacketHeaders.from_ethernet bs) (LaxCut.from_ethernet true bs) /\
+  lax_slots_in_order (LaxPacketHeaders.from_ether_type et bs) (LaxCut.from_ether_type true et bs) /\
+  lax_slots_in_order (LaxPacketHeaders.from_ip bs) (LaxCut.from_ip true bs).
+Proof. exact lax_hdr_slots_in_order. Qed.
+Print Assumptions C04_lax_ipv6_slots_in_order.
+Check (eq_refl : lax_slots_in_order =
+  fun h s =>
+    forall hp hd x, h = Ok hp -> lh_net hp = Some (HnIp (IhV6 hd x)) ->
+    exists sp v first l nh_end,
+      s = Ok sp /\ lsp_net sp = Some (LNtIpv6 v) /\ lv6_header v = hd /\
+      Ipv6HeaderSlice.next_header hd = Ok first /\
+      Ipv6ExtIterA.items (lv6_exts v) = Ok l /\
+      slots_hold x l /\
+      chain (x6_slice (lv6_exts v)) 0 first l (exts6_len x) nh_end /\
+      win_of (x6_slice (lv6_exts v)) = (s_off hd + 40, exts6_len x)).
+
+Theorem C04_lax_ipv6_struct_holds_chain : forall nh0 hp x nh' r st,
+  LaxIpv6Extensions.from_slice_lax nh0 hp = Ok (x, nh', r, st) ->
+  exists l k', slots_hold x l /\ chain hp 0 nh0 l k' nh' /\ k' <= s_len hp /\ r = at_off hp k'.
+Proof. exact lax_from_slice_slots. Qed.
+Print Assumptions C04_lax_ipv6_struct_holds_chain.
+
+(* the packet of C04_ex_slots cut inside its authentication header: the lax struct keeps the four
+   headers in front of the fault in their slots, the authentication slot stays empty, the stop error
+   names the authentication header; the cut lax slicing result iterates to the same four headers *)
+Example C04_ex_lax_slots :
+  let bs := take 80 ex_order in
+  exists hp hd x sp v l,
+    LaxPacketHeaders.from_ip bs = Ok hp /\ lh_net hp = Some (HnIp (IhV6 hd x)) /\
+    LaxCut.from_ip true bs = Ok sp /\ lsp_net sp = Some (LNtIpv6 v) /\
+    Ipv6ExtIterA.items (lv6_exts v) = Ok l /\
+    map item_tag l = [(44, (40, 8)); (60, (48, 8)); (43, (56, 8)); (60, (64, 8))] /\
+    slot_wins x = [None; Some (48, 8); Some (56, 8); Some (64, 8); Some (40, 8); None] /\
+    option_map snd (lh_stop hp) = Some LyIpAuthHeader.
+Proof.
+  cbv zeta. do 6 eexists. split; [vm_compute; reflexivity|]. split; [reflexivity|].
+  split; [vm_compute; reflexivity|]. split; [reflexivity|]. split; [vm_compute; reflexivity|].
+  repeat split; vm_compute; reflexivity.
+Qed.
+(* ---- end audit1-c04 (lax pair) ---- *)
+
+(* ---- audit1-c04 (prefix) ---- *)
+(* The headers in front of the cut are a prefix of what the UNCUT slicing result yields: whenever the
+   cut run and SlicedPacket.from_* both return an IPv6 network layer, it is on the same IPv6 header
+   slice, and iterating the extensions of the slicing result yields the items of the cut result
+   followed by more (none when the cut did not happen).  With C04_ipv6_slots_in_order: the struct's
+   slots hold, in wire order, the first extension headers that `SlicedPacket::from_*` yields, up to
+   the cut point.  (When the uncut walk fails behind the cut there is no slicing result to compare
+   with: C04_ex_exception_fault_behind.)  Proof: Parse/HdrSlots3.v. *)
+From EP Require Import Parse.HdrSlots3.
+Theorem C04_cut_items_prefix_of_slicing : forall bs et,
+  cut_items_prefix (Cut.from_ethernet true bs) (SlicedPacket.from_ethernet bs) /\
+  cut_items_prefix (Cut.from_ether_type true et bs) (SlicedPacket.from_ether_type et bs) /\
+  cut_items_prefix (Cut.from_ip true bs) (SlicedPacket.from_ip bs).
+Proof. exact cut_prefix_of_slicing. Qed.
+Print Assumptions C04_cut_items_prefix_of_slicing.
+Check (eq_refl : cut_items_prefix =
+  fun a b =>
+    forall sp v sp', a = Ok sp -> sp_net sp = Some (NtIpv6 v) -> b = Ok sp' ->
+    exists v', sp_net sp' = Some (NtIpv6 v') /\ v6_header v' = v6_header v /\
+      forall l l2, Ipv6ExtIterA.items (v6_exts v) = Ok l -> Ipv6ExtIterA.items (v6_exts v') = Ok l2 ->
+                   exists l', l2 = l ++ l').
+(* the packet of C04_ex_exception: one fragment header in front of the cut, two in the slicing result *)
+Example C04_ex_prefix :
+  exists sp v sp' v' l l2,
+    Cut.from_ip true ex_dup = Ok sp /\ sp_net sp = Some (NtIpv6 v) /\
+    SlicedPacket.from_ip ex_dup = Ok sp' /\ sp_net sp' = Some (NtIpv6 v') /\
+    Ipv6ExtIterA.items (v6_exts v) = Ok l /\ Ipv6ExtIterA.items (v6_exts v') = Ok l2 /\
+    map item_tag l = [(44, (40, 8))] /\ map item_tag l2 = [(44, (40, 8)); (44, (48, 8))].
+Proof.
+  do 6 eexists. split; [vm_compute; reflexivity|]. split; [reflexivity|].
+  split; [vm_compute; reflexivity|]. split; [reflexivity|].
+  split; [vm_compute; reflexivity|]. split; [vm_compute; reflexivity|].
+  split; vm_compute; reflexivity.
+Qed.
+(* ---- end audit1-c04 (prefix) ---- *)
